@@ -92,6 +92,33 @@ def compare(cur, base):
             for cn, bn in pairs:
                 lines.append("F\t%s\t%s\t%s\t%s" % (d, vname, cn, bn))
                 rep["renamed_fields"].append("%s::%s.%s (baseline: .%s)" % (d, vname, cn, bn))
+            # fields moved into a new private struct that the variant now holds in one field (`pending_out: PendingOut { frames, .. }`):
+            # the grouping field is made transparent and the inner fields take the baseline names
+            paired_b = {bn for _, bn in pairs}
+            paired_c = {cn for cn, _ in pairs}
+            gone2 = [g for g in gone if g not in paired_b]
+            bt = {n: t for n, t in bfields}
+            for cn, ctype in cfields:
+                if cn not in new or cn in paired_c or not gone2:
+                    continue
+                tname = re.sub(r"<.*$", "", ctype)
+                if tname in base["adts"] or tname not in cur["adts"] or len(cur["adts"][tname]) != 1:
+                    continue
+                ivar, ifields = cur["adts"][tname][0]
+                m = {}
+                for g in gone2:
+                    cands = [fn_ for fn_, ft in ifields if ft == bt[g] and fn_ not in m.values()]
+                    if len(cands) > 1:
+                        near = [x for x in cands if x in g or g.endswith(x) or g.startswith(x)]
+                        cands = near if len(near) == 1 else cands
+                    if len(cands) == 1:
+                        m[g] = cands[0]
+                if len(m) == len(gone2) == len(ifields):
+                    lines.append("F\t%s\t%s\t%s\t" % (d, vname, cn))
+                    for g, inner in m.items():
+                        lines.append("F\t%s\t%s\t%s\t%s" % (tname, ivar, inner, g))
+                    rep["renamed_fields"].append("%s::%s.%s groups %s (seen through)" % (d, vname, cn, sorted(m)))
+                    gone2 = []
     # ---- functions
     bf, cf = base["fns"], cur["fns"]
     top = lambda k: not CLOSURE_RX.search(k)
